@@ -13,6 +13,8 @@ def op_merge(sim: Sim, a) -> str:
     si, ti, tm, table = sim.pick_table(ds, a["s"], a["t"])
     if tm.merge_unspecified:
         return "skip"  # (model-only mode) the rectangles are unknown until the library is asked
+    if tm.hedge or tm.vedge or tm.styles:
+        return "skip"  # bound: ranges are merged before anything is drawn or styled (merging replaces the cell objects)
     rects = []
     for r0, c0, r1, c1 in a["rects"]:
         r0, c0 = r0 % tm.nrows, c0 % tm.ncols
